@@ -306,3 +306,14 @@ Proof.
     + exists (dy_min vals). split; [exact Hinm|]. fold vmin. cbn [andb] in Hfail. lia.
     + exists (dy_max vals). split; [exact HinM|]. fold vmax. lia.
 Qed.
+
+(* an inferred word never exceeds the configured maximum, whichever sizes are given *)
+Theorem best_sizes_word_within_max (signed : bool) nwo nfo wmax vals w f :
+  best_sizes signed nwo nfo wmax vals = Ok (w, f) -> w <= wmax.
+Proof.
+  unfold best_sizes. intros H.
+  destruct (match nfo with Some f0 => Ok f0 | None => match omapM (frac_bits (wmax - (if signed then 1 else 0))) vals with Some ns => Ok (fold_right Z.max 0 ns) | None => Unmodelled end end) as [nfr| |] eqn:E; cbn [bind] in H; try discriminate.
+  destruct (nfr <? 0); [discriminate|].
+  destruct (int_loop 200 (wmax - (if signed then 1 else 0)) (scaled_trunc (dy_max vals) nfr) (scaled_trunc (dy_min vals) nfr) 0) as [ni0|]; [|discriminate].
+  destruct nwo as [w0|]; injection H as Hw Hf; lia.
+Qed.
